@@ -198,3 +198,58 @@ def first_bad_pair_first(ps: 'Seq[YPair]', kt: 'Ty', vt: 'Ty', i: int,
                    and first_bad_pair(ps, kt, vt, i) == -1
                    and not pair_good(ps[i], kt, vt),
                    first_bad_pair(ps, kt, vt, n) == i)
+
+
+@lemma(induct='n', triggers=['params_ok(nd, c, i)', 'params_ok(nd, c, n)'])
+def params_ok_prefix(nd: 'YNode', c: 'Ty', i: int, n: int) -> bool:
+    """all parameters acceptable implies every prefix acceptable"""
+    return implies(0 <= i and i <= n and params_ok(nd, c, n),
+                   params_ok(nd, c, i))
+
+
+@lemma(induct='n', triggers=['params_ok(nd, c, i)', 'params_ok(nd, c, n)'])
+def params_ok_bad(nd: 'YNode', c: 'Ty', i: int, n: int) -> bool:
+    """one unacceptable parameter makes the whole parameter list fail"""
+    return implies(0 <= i and i < n and not rec_param(
+        nd, cls_pname(c, i), cls_ptype(c, i), cls_preq(c, i)),
+        not params_ok(nd, c, n))
+
+
+# ---- what every recognised type says about the node (C01, C04)
+
+def shape_ok(n: 'YNode', r: 'Ty') -> bool:
+    """a type r that node n was recognised as agrees with the node's kind and
+    tag: built-ins by exact tag, lists are sequences, dicts are mappings,
+    Path a str scalar, enums str/bool scalars, string-likes str scalars,
+    auto-recognised classes mappings"""
+    if is_scalar_type(r):
+        return n.kind == SCALAR and n.tag == scalar_tag(r)
+    if r == T_PATH:
+        return n.kind == SCALAR and n.tag == STR_TAG
+    if r == T_ANY:
+        return True
+    if ty_is_list(r):
+        return n.kind == SEQ
+    if ty_is_dict(r):
+        return n.kind == MAP
+    if ty_is_union(r):
+        return False
+    if not reg_has(r):
+        return False
+    if cls_own_recognize(r):
+        return True
+    if cls_is_enum(r):
+        return n.kind == SCALAR and (n.tag == STR_TAG or n.tag == BOOL_TAG)
+    if cls_is_strlike(r):
+        return n.kind == SCALAR and n.tag == STR_TAG
+    return n.kind == MAP
+
+
+def concrete_ok(r: 'Ty') -> bool:
+    """a recognised type is a built-in/generic type or a REGISTERED,
+    NON-ABSTRACT class (C03: abstract classes are never instantiated,
+    unregistered classes never considered)"""
+    if (is_scalar_type(r) or r == T_PATH or r == T_ANY or ty_is_list(r)
+            or ty_is_dict(r)):
+        return True
+    return reg_has(r) and not cls_is_abstract(r)
